@@ -40,9 +40,9 @@ PROPS = {
     'C09': {
         'units': ['unify', 'lists'],
         'functions': [],
-        'oracles': {'#anon_sound': 'c09_mgu', '*': 'c09_anon'},
+        'oracles': {'#anon_sound': 'c09_mgu', '*': 'c09_anon', '#program_level': 'c09_program'},
         'bounded': [('c09_mgu', 'pairs containing `$_` against a reference unifier that treats `$_` as a wildcard: success exactly when a unifier exists, the other positions identical when resolved, no extra bindings (23 terms x 23 terms x 7 prior sets, those with `$_`)')],
-        'not_covered': ['programs using $_ in heads and bodies: the solver is outside reach; the clause covers every unify call, hence every position, by modularity',
+        'not_covered': ['programs using $_ in heads and bodies: the solver is outside reach; the clause covers every unify call, hence every position, by modularity. A bounded oracle (c09_program: 30 queries with `$_` against the same queries with fresh named variables, through the real search) looks at the search that makes the calls',
                         'that a list pattern with a `$_` tail reaches unify as such: the constructor make_linked_list keeps `$_` after the bar as the tail (clause #tail, unit lists, tagged C09); the renaming of clause lists is C10'],
     },
     'C13': {
